@@ -111,8 +111,7 @@ def run(tier):
     json.dump(config(), open(cfgp, "w"))
     recs, stats = [], {"states": 0, "transitions": 0}
     feature_sets = [("on", ("serde-compat",)), ("on", ("serde-compat", "no-serde-warnings")), ("off", ()), ("off", ("no-serde-warnings",))]
-    if tier == "quick":
-        feature_sets = [feature_sets[0], feature_sets[2], feature_sets[1]]
+    # (all four corners of serde-compat x no-serde-warnings in both tiers)
     model_bad = 0
     for mode, feats in feature_sets:
         r = vlib.run_tlc("MC_AttrEquiv", "MC_AttrEquiv_%s.cfg" % mode, workers=8, env={"VERIF_CFG": cfgp}, timeout=1200, metatag="c10p")
